@@ -294,6 +294,22 @@ package btree
 //@     invariant size >= 1 && 0 - 1 <= rangeindex && rangeindex < len(node.Children) && (len(node.Children) == 0 ==> rangeindex == 0 - 1)
 //@     decreases len(node.Children) - rangeindex
 
+//@ -- String / output: returns normally, terminates (recursion over the level ghost), reads only (C17, C18). The text is built in
+//@ -- a bytes.Buffer, whose content the engine does not model: that it begins with "BTree" is checked by the bounded stand-in.
+//@ func Tree.output
+//@   requires node != nil && node.tr == tree && ShapeInv(tree) && level >= 0
+//@   decreases node.lvl
+//@   modifies nothing
+//@   ensures [C17 C18] true
+//@   loop 1:
+//@     invariant 0 <= e
+//@     decreases len(node.Entries) + 1 - e
+
+//@ func Tree.String
+//@   requires ShapeInv(tree)
+//@   modifies nothing
+//@   ensures [C17 C18] true
+
 //@ func Tree.Height
 //@   requires ShapeInv(tree)
 //@   modifies nothing
